@@ -5,7 +5,7 @@ cd /verif
 k=${1:-0}; n=${2:-1}; i=0
 for d in seeded/*/; do
   i=$((i+1)); [ $((i % n)) -eq $k ] || continue
-  id=$(basename $d); prop=$(python3 -c "import json;print(json.load(open('$d/meta.json'))['breaks_property'])")
+  id=$(basename $d); prop=$(python3 -c "import json;m=json.load(open('$d/meta.json'));print(m.get('check_property') or m['breaks_property'])")
   res=$(tools/seedcheck2.sh $PWD/$d/patch.diff $prop 2>&1 | grep "seed result" | tail -1)
   echo "$id $res"
 done
